@@ -197,10 +197,8 @@ class ndpoly(numpy.ndarray):  # pylint: disable=invalid-name
         assert isinstance(allocation, int) and allocation >= len(
             keys
         ), "Not enough memory allocated; increase 'allocation'"
-        if allocation > len(keys):
-            allocation_ = numpy.arange(allocation - len(keys), len(keys))
-            allocation_ = [str(s) for s in allocation_]
-            keys = numpy.concatenate([keys, allocation_])
+        # no placeholder keys for the spare slots: they would name fields that
+        # do not exist in the structured dtype built above
         obj.allocation = allocation
 
         if names is None:
